@@ -469,7 +469,7 @@ pub fn eval_mux(c: &MuxCase) -> Outcome {
                     o.fail(
                         "exit_ok",
                         format!("exit_ok.code={:?}", p.code),
-                        format!("valid options {:?} exit {:?}: {}", &args[..args.len().min(30)], p.code, &p.stderr[..p.stderr.len().min(300)]),
+                        format!("valid options {:?} exit {:?}: {}", &args[..args.len().min(30)], p.code, clip(&p.stderr, 300)),
                     );
                 } else {
                     match std::fs::read(&opath) {
@@ -497,7 +497,7 @@ pub fn eval_mux(c: &MuxCase) -> Outcome {
                         (grab("Video frames"), grab("Audio frames"))
                     };
                     if cv != Some(vf) || ca != Some(af) {
-                        o.fail("counts", format!("counts.{}", if c.json { "json" } else { "text" }), format!("CLI reports {:?}/{:?} frames, library statistics say {}/{}; stdout: {}", cv, ca, vf, af, &p.stdout[..p.stdout.len().min(300)]));
+                        o.fail("counts", format!("counts.{}", if c.json { "json" } else { "text" }), format!("CLI reports {:?}/{:?} frames, library statistics say {}/{}; stdout: {}", cv, ca, vf, af, clip(&p.stdout, 300)));
                     }
                 }
             }
@@ -517,7 +517,7 @@ pub fn eval_mux(c: &MuxCase) -> Outcome {
             o.fail("exit_fail", format!("exit_fail.{}", expect_fail_reason.replace(' ', "_")), format!("{}: exit code 0; args {:?}", expect_fail_reason, &args[..args.len().min(30)]));
         }
         if completion_reported(&p) {
-            o.fail("no_completion", format!("no_completion.{}", expect_fail_reason.replace(' ', "_")), format!("{}: completion was reported: {}", expect_fail_reason, &p.stdout[..p.stdout.len().min(200)]));
+            o.fail("no_completion", format!("no_completion.{}", expect_fail_reason.replace(' ', "_")), format!("{}: completion was reported: {}", expect_fail_reason, clip(&p.stdout, 200)));
         }
         o.nontrivial = true;
         o.class(&format!("invalid:{}", expect_fail_reason));
@@ -717,9 +717,9 @@ pub fn eval_validate(c: &ValCase) -> Outcome {
                     None => {
                         // a crash / error exit is "not valid"; only a problem when the inputs are valid
                         if either {
-                            o.fail("verdict", "verdict.none_for_unicode_whitespace", format!("no verdict (crash or abort) for hex text separated by Unicode whitespace: exit {:?} stderr {}", p.code, &p.stderr[..p.stderr.len().min(200)]));
+                            o.fail("verdict", "verdict.none_for_unicode_whitespace", format!("no verdict (crash or abort) for hex text separated by Unicode whitespace: exit {:?} stderr {}", p.code, clip(&p.stderr, 200)));
                         } else if want {
-                            o.fail("verdict", "verdict.none_for_valid_inputs", format!("no verdict for valid inputs: exit {:?} stderr {}", p.code, &p.stderr[..p.stderr.len().min(200)]));
+                            o.fail("verdict", "verdict.none_for_valid_inputs", format!("no verdict for valid inputs: exit {:?} stderr {}", p.code, clip(&p.stderr, 200)));
                         }
                     }
                 }
